@@ -261,6 +261,9 @@ func c07Run(c *Case) {
 			c.Inconclusive("generator-discipline")
 			return
 		}
+		if c.Rng.IntN(3) == 0 {
+			doc = append(append(append([]byte{}, doc...), '\n'), doc...) // two values: something is left to run after an exit in ENDFILE
+		}
 		r := m2(c, &M2Case{Prog: p, Text: text, Files: []InFile{{Name: "in.json", Data: doc}}, Desc: "structured program"})
 		if r.Mod != nil {
 			nsig := 0
